@@ -86,7 +86,7 @@ Fixpoint judge (incl : bool) (globals fg : list name) (bs : list ((N * name) * (
   match bs with
   | [] => if changed then 0 else 1
   | ((k, x), (_, y)) :: r =>
-    if (k =? 2) && negb incl then (if bytes_eqb x y then judge incl globals fg r changed else 6)
+    if N.eqb k 2 && negb incl then (if bytes_eqb x y then judge incl globals fg r changed else 6)
     else if negb (valid_identifier y) then 7
     else if mem y keywords then 3
     else if mem y globals then 4
@@ -110,11 +110,11 @@ def configurations():
         ('["rename_variables"]', False, base),
         ('[{"rule":"rename_variables","include_functions":true}]', True, base),
         ('[{"rule":"rename_variables","globals":["$default"]}]', False, base),
-        ('[{"rule":"rename_variables","globals":["$roblox"]}]', False, "(g_default ++ g_roblox)"),
-        ('[{"rule":"rename_variables","include_functions":true,"globals":["$roblox"]}]', True, "(g_default ++ g_roblox)"),
-        ('[{"rule":"rename_variables","globals":["print","foo"]}]', False, '(g_default ++ [nm "print"; nm "foo"])'),
+        ('[{"rule":"rename_variables","globals":["$roblox"]}]', False, "(g_default ++ g_roblox)%list"),
+        ('[{"rule":"rename_variables","include_functions":true,"globals":["$roblox"]}]', True, "(g_default ++ g_roblox)%list"),
+        ('[{"rule":"rename_variables","globals":["print","foo"]}]', False, '(g_default ++ [nm "print"; nm "foo"])%list'),
         ('[{"rule":"rename_variables","include_functions":true,"globals":["print","foo","a","b"]}]', True,
-         '(g_default ++ [nm "print"; nm "foo"; nm "a"; nm "b"])'),
+         '(g_default ++ [nm "print"; nm "foo"; nm "a"; nm "b"])%list'),
     ]
 
 
